@@ -7,6 +7,7 @@ from props.c20 import _same_arrays, seg_table
 from props.c19 import _norm
 
 ID = "C16"
+HEAP_SUMMARY = True      # end every program with the reference-level observation (BB.Model.Heap vs id() walk)
 LEAN_MODULE = "BB.Properties.C16"
 QUICK_N = 120
 THOROUGH_N = 2500
